@@ -41,7 +41,10 @@ EXTRA_TRUSTED = [
     "`1 << arange(size)` for size > 62 is outside the model",
 ]
 RULE = ("cases: (a) generate_hilbert_space for every n up to 8 (quick) / 12 (thorough) in full, sampled rows for every larger n up to 20"
-        ", oversize and size=None/0 default cases on all three state classes; (b) subspace_vector for random "
+        ", oversize and size=None/0 default cases on all three state classes; (a') call sequences in which a previously returned space / "
+        "vector is modified in place (flip_spin, chain buffer of sample(overwrite=True), direct edits, zero_/fill_/copy_, numpy view) "
+        "before the next call on the same state, another state object, another size, the default call form, and before an internal use "
+        "(rotate_psi_inner_prod); (b) subspace_vector for random "
         "(num,size) incl. num >= 2^size and size None/0; (c) _convert_basis_element_to_index on random 0/1 batches and 1-D vectors, "
         "n up to 30; (d) np.kron ordering of rotate_psi / rotate_rho on random complex inputs; (e) random data files (N, n, basis "
         "alphabets, many-digit and float32-midpoint targets, comment/blank lines, tabs, CRLF, one-row / one-column / empty / ragged / "
@@ -119,20 +122,47 @@ def errname(e):
 _STATES = {}
 
 
+def new_state(kind, nv):
+    if kind == "pos":
+        return qc.PositiveWaveFunction(nv, 1, gpu=False)
+    if kind == "cplx":
+        return qc.ComplexWaveFunction(nv, 1, gpu=False)
+    return qc.DensityMatrix(nv, 1, 1, gpu=False)
+
+
 def get_state(kind, nv):
     key = (kind, nv)
     if key not in _STATES:
-        if kind == "pos":
-            _STATES[key] = qc.PositiveWaveFunction(nv, 1, gpu=False)
-        elif kind == "cplx":
-            _STATES[key] = qc.ComplexWaveFunction(nv, 1, gpu=False)
-        else:
-            _STATES[key] = qc.DensityMatrix(nv, 1, 1, gpu=False)
+        _STATES[key] = new_state(kind, nv)
     return _STATES[key]
 
 
 def eff_size(size, nv):
     return size if size else nv
+
+
+SIZE_FORMS = ("int", "np64", "np32", "t0")      # hashable integer-like forms accepted by the unchanged library with the meaning of the int
+NUM_FORMS = ("int", "np64", "arr0")
+DEVICE_FORMS = ("omit", "str", "obj", "none")
+
+
+def as_form(x, form):
+    """the integer argument x as a python int / numpy integer scalar / 0-d ndarray / 0-d tensor (None and 0 are passed as they are)"""
+    if not x or form in (None, "int"):
+        return x
+    if form == "np64":
+        return np.arange(x, x + 1)[0]          # an element of np.arange: numpy int64 scalar
+    if form == "np32":
+        return np.int32(x)
+    if form == "arr0":
+        return np.array(x)
+    if form == "t0":
+        return torch.tensor(x)
+    raise ValueError(form)
+
+
+def dev_kw(form):
+    return {} if form in (None, "omit") else {"device": {"str": "cpu", "obj": torch.device("cpu"), "none": None}[form]}
 
 
 def bits_of(k, n):
@@ -150,7 +180,10 @@ def space_case(ctx, case):
     ctx.case({"k": "space", **case}, nontrivial=s >= 2, sample={"op": "generate_hilbert_space", "state": kind, "nv": nv, "size": size})
     from qucumber.utils.unitaries import _convert_basis_element_to_index as conv
     try:
-        sp = st.generate_hilbert_space(size) if case.get("pass_size", True) else st.generate_hilbert_space()
+        sz_arg = as_form(size, case.get("size_form"))
+        kw = dev_kw(case.get("device_form"))
+        ctx.count(f"space:size_form={case.get('size_form') or 'int'}"); ctx.count(f"space:device_form={case.get('device_form') or 'omit'}")
+        sp = st.generate_hilbert_space(sz_arg, **kw) if case.get("pass_size", True) else st.generate_hilbert_space(**kw)
         err = None
     except Exception as e:  # noqa: BLE001
         sp, err = None, errname(e)
@@ -192,7 +225,8 @@ def space_case(ctx, case):
     sub_ks = ks if len(ks) <= 64 else sorted(set(random.Random(case.get("ks_seed", 0) + 1).sample(ks, 48) + [0, ks[-1], ks[len(ks) // 2]]))
     subs = []
     for k in sub_ks:
-        v = st.subspace_vector(k, size) if case.get("pass_size", True) else st.subspace_vector(k)
+        kf = as_form(k, case.get("num_form")) if k else k
+        v = st.subspace_vector(kf, sz_arg, **kw) if case.get("pass_size", True) else st.subspace_vector(kf, **kw)
         subs.append(v.to(torch.int64).tolist())
         ctx.count("space:subspace_calls")
     pos = {k: i for i, k in enumerate(ks)}
@@ -223,7 +257,8 @@ def subspace_case(ctx, case):
     ctx.count("sub:size_arg=" + ("None" if size is None else "0" if size == 0 else ("<=20" if size <= 20 else ">20")))
     impl = []
     for num in nums:
-        v = st.subspace_vector(num, size)
+        nf = case.get("num_form") if num < 2 ** 62 else None
+        v = st.subspace_vector(as_form(num, nf) if num else num, as_form(size, case.get("size_form")), **dev_kw(case.get("device_form")))
         impl.append(v.to(torch.int64).tolist())
         ctx.oracle("subspace_vector == big-endian low bits", impl[-1] == bits_of(num, s) and v.dtype == torch.double and tuple(v.shape) == (s,),
                    {**case, "nums": [num]}, sig="sub/bits", theorem=TH["sub"], detail={"impl": impl[-1], "want": bits_of(num, s)})
@@ -305,6 +340,159 @@ def kron_case(ctx, case):
         got = out[0] + 1j * out[1]
         ctx.oracle("rotate_rho == U rho U^H", bool(np.allclose(got, U @ A @ U.conj().T, rtol=1e-10, atol=1e-12)), case,
                    sig="kron/rotate_rho", theorem=TH["kron"])
+
+
+# ================================================================= part 1b: returned tensors are the caller's own
+MUTATIONS = ("flip_spin", "sample_overwrite", "edit", "zero_", "fill_", "complement", "numpy_view", "copy_")
+
+
+def mutate_in_place(st, t, how, rng_seed):
+    """modify a tensor previously returned by the library IN PLACE with public tools"""
+    r = random.Random(rng_seed)
+    if how == "flip_spin":
+        from qucumber.observables.pauli import flip_spin
+        flip_spin(r.randrange(t.shape[-1]), t)
+    elif how == "sample_overwrite":      # used as the initial state of Markov chains that are advanced in place
+        torch.manual_seed(rng_seed)
+        if t.dim() == 2 and t.shape[1] == st.num_visible:
+            st.sample(k=3, initial_state=t, overwrite=True)
+        t.copy_(1 - t)                   # (and in any case not what it was)
+    elif how == "edit":
+        flat = t.view(-1)
+        for k in r.sample(range(flat.numel()), 1 + flat.numel() // 3):
+            flat[k] = 1 - flat[k]
+    elif how == "zero_":
+        t.zero_()
+        if t.numel() == 1:
+            t.fill_(5.0)
+    elif how == "fill_":
+        t.fill_(1.0); t.view(-1)[0] = 3.0
+    elif how == "complement":
+        t.mul_(-1).add_(1)
+    elif how == "numpy_view":
+        a = t.numpy()
+        a[...] = a[::-1].copy() if a.ndim == 2 and a.shape[0] > 1 else 1 - a
+    elif how == "copy_":
+        t.copy_(torch.flip(t, dims=[0]) if t.shape[0] > 1 else 1 - t)
+    else:
+        raise ValueError(how)
+
+
+def shares_memory(a, b):
+    try:
+        return a.untyped_storage().data_ptr() == b.untyped_storage().data_ptr()
+    except Exception:  # noqa: BLE001
+        return a.data_ptr() == b.data_ptr()
+
+
+def alias_case(ctx, case):
+    """generate_hilbert_space / subspace_vector called repeatedly while the caller modifies earlier results in place:
+    g1 = A.generate(size); g2 = A.generate(size); mutate g1; g3 = A.generate(size); B.generate(size) on ANOTHER state object;
+    A.generate(other size); default call form; subspace_vector twice with the first result mutated; an internal user of the
+    enumeration (rotate_psi_inner_prod with `size` rotated sites, explicit psi) vs the dense Kronecker product.
+    Every result is compared with the model (rows of the big-endian enumeration) and must not share storage with an earlier one."""
+    from qucumber.utils import unitaries as un
+    size, how = case["size"], case["how"]
+    A = get_state(case["state"], case["nv"])
+    Bst = new_state(case["other_state"], case["other_nv"])    # a different object even when class and size coincide
+    ctx.case({"k": "alias", **case}, nontrivial=size >= 2, sample={"op": "generate twice, mutate the first result in place, generate again",
+                                                                   "size": size, "how": how, "states": [case["state"], case["other_state"]]})
+    ctx.count("alias_case"); ctx.count(f"alias:how={how}"); ctx.count(f"alias:size={size}")
+    want = {}
+    deferred = []
+
+    def rows_of(sz):
+        if sz not in want:
+            want[sz] = [list(t) for t in itertools.product([0, 1], repeat=sz)]
+        return want[sz]
+
+    def model_rows(sz_arg, nv):
+        if ctx.driver is None:
+            return None
+        return ctx.driver.call("c19.space", size=sz_arg, nv=nv).get("rows")
+
+    def check(label, sp, sz_arg, nv, earlier):
+        sz = eff_size(sz_arg, nv)
+        sub = {**case, "step": label}
+        ok_meta = isinstance(sp, torch.Tensor) and tuple(sp.shape) == (2 ** sz, sz) and sp.dtype == torch.double
+        rows = sp.tolist() if ok_meta else None
+        ctx.oracle(f"alias[{label}]: generated space == itertools.product (exactly 0.0 / 1.0)", ok_meta and rows == rows_of(sz), sub,
+                   detail=None if (ok_meta and rows == rows_of(sz)) else
+                   {"first_bad_row": next((i for i in range(len(rows or [])) if rows[i] != rows_of(sz)[i]), None), "shape_ok": ok_meta},
+                   sig="alias/space", theorem=TH["space"])
+        m = model_rows(sz_arg, nv)
+        if m is not None and ok_meta:
+            ctx.point(f"alias[{label}]: generate_hilbert_space", "property", sp.to(torch.int64).tolist() if rows == rows_of(sz) else rows, m, sub,
+                      exact=True, sig="alias/space", theorem=TH["space"])
+        for (nm, e) in earlier:   # reported after the value comparisons (the mechanism, not the symptom)
+            deferred.append((f"alias[{label}]: the result does not share storage with {nm}", not shares_memory(sp, e), sub))
+
+    g1 = A.generate_hilbert_space(size)
+    check("first", g1, size, case["nv"], [])
+    g2 = A.generate_hilbert_space(size)
+    check("second call", g2, size, case["nv"], [("the first result", g1)])
+    g2_bytes = g2.numpy().tobytes()
+    mutate_in_place(A, g1, how, case["seed"])
+    deferred.append(("alias: modifying the first result leaves the second result unchanged", g2.numpy().tobytes() == g2_bytes, {**case, "step": "mutate"}))
+    g3 = A.generate_hilbert_space(size)
+    check("after the first result was modified in place", g3, size, case["nv"], [("the first result", g1), ("the second result", g2)])
+    g4 = Bst.generate_hilbert_space(size)
+    check("another state object", g4, size, case["other_nv"], [("the first result", g1)])
+    if case["nv"] == size:
+        g5 = A.generate_hilbert_space() if case["seed"] % 2 else A.generate_hilbert_space(0)
+        check("default size", g5, None if case["seed"] % 2 else 0, case["nv"], [("the first result", g1)])
+    osz = case["other_size"]
+    h1 = A.generate_hilbert_space(osz)
+    mutate_in_place(A, h1, MUTATIONS[(MUTATIONS.index(how) + 3) % len(MUTATIONS)], case["seed"] + 1)
+    check("other size, after an earlier result of that size was modified", Bst.generate_hilbert_space(osz), osz, case["other_nv"], [("the earlier result", h1)])
+    check("first size again", A.generate_hilbert_space(size), size, case["nv"], [("the first result", g1)])
+    # ---- subspace_vector
+    for k in case["nums"]:
+        sub = {**case, "step": f"subspace_vector({k})"}
+        v1 = A.subspace_vector(k, size)
+        mutate_in_place(A, v1, "complement" if how in ("flip_spin", "sample_overwrite") else how if how != "numpy_view" else "edit", case["seed"] + 2)
+        v2 = A.subspace_vector(k, size)
+        v3 = Bst.subspace_vector(k, size)
+        for nm, v in (("same state", v2), ("another state", v3)):
+            ctx.oracle(f"alias: subspace_vector({k}) after an earlier result was modified in place ({nm}) == big-endian bits",
+                       v.tolist() == [float(b) for b in bits_of(k, size)] and not shares_memory(v, v1), sub,
+                       detail={"impl": v.tolist(), "want": bits_of(k, size)}, sig="alias/sub", theorem=TH["sub"])
+        if ctx.driver is not None:
+            m = ctx.driver.call("c19.rows", size=size, nv=case["nv"], ks=[k])
+            ctx.point("alias: subspace_vector", "property", [v2.to(torch.int64).tolist(), v3.to(torch.int64).tolist()], [m["sub"][0], m["sub"][0]], sub,
+                      exact=True, sig="alias/sub", theorem=TH["sub"])
+    # ---- an internal user of the enumeration: `size` rotated sites, explicit psi, vs the dense Kronecker product
+    n = case["rot_n"]
+    C = get_state("cplx", n)
+    basis = case["rot_basis"]
+    d = C.unitary_dict
+    U = np.array([[1.0 + 0j]])
+    for b in basis:
+        U = np.kron(U, d[b][0].numpy() + 1j * d[b][1].numpy())
+    psi = np.array(case["psi_re"]) + 1j * np.array(case["psi_im"])
+    states_t = torch.tensor(rows_of(n), dtype=torch.double)
+    out = un.rotate_psi_inner_prod(C, basis, states_t, psi=torch.tensor(np.stack([psi.real, psi.imag]), dtype=torch.double)).numpy()
+    got = out[0] + 1j * out[1]
+    ctx.oracle("alias: rotate_psi_inner_prod (uses the enumeration of the rotated sites internally) == kron(U_0..U_{n-1}) psi at every index",
+               bool(np.allclose(got, U @ psi, rtol=1e-10, atol=1e-12)), {**case, "step": "rotate_psi_inner_prod"},
+               detail={"impl": [str(x) for x in got[:4]], "want": [str(x) for x in (U @ psi)[:4]]}, sig="alias/kron", theorem=TH["kron"])
+    for (name, ok, sub) in deferred:
+        ctx.oracle(name, ok, sub, sig="alias/shared-storage", theorem=TH["space"])
+
+
+def gen_alias_case(rng, thorough):
+    kinds = ["pos", "cplx", "dm"]
+    size = rng.randrange(1, 7 if thorough else 6)
+    nv = rng.choice([size, size, rng.randrange(1, 7)])
+    other_nv = rng.choice([size, nv, rng.randrange(1, 7)])
+    rot_n = rng.randrange(size, min(size + 3, 7))
+    sites = sorted(rng.sample(range(rot_n), size))
+    basis = "".join(rng.choice("XY") if j in sites else "Z" for j in range(rot_n))
+    D = 2 ** rot_n
+    return {"kind": "alias", "state": rng.choice(kinds), "nv": nv, "other_state": rng.choice(kinds), "other_nv": other_nv, "size": size,
+            "other_size": rng.choice([k for k in range(1, 7) if k != size]), "how": rng.choice(MUTATIONS), "seed": rng.randrange(1 << 30),
+            "nums": [rng.randrange(2 ** size) for _ in range(2)] + [2 ** size - 1],
+            "rot_n": rot_n, "rot_basis": basis, "psi_re": [rng.gauss(0, 1) for _ in range(D)], "psi_im": [rng.gauss(0, 1) for _ in range(D)]}
 
 
 # ================================================================= part 2: files
@@ -755,8 +943,12 @@ def extract_case(ctx, case):
     form = case.get("form", "mat/mat")
     sm = torch.tensor(samples, dtype=torch.double)
     ba = np.array(bases, dtype=str)
+    sm_before, ba_before = sm.clone(), ba.copy()
     try:
+        qdata.extract_refbasis_samples(sm, ba)   # called twice on the same argument objects: the second result is the one compared
         z = qdata.extract_refbasis_samples(sm, ba)
+        ctx.oracle("extract_refbasis_samples leaves its inputs unchanged", bool(torch.equal(sm, sm_before)) and bool(np.array_equal(ba, ba_before)),
+                   case, sig="extract/inputs", theorem=TH["ref"])
         impl = {"result": np_arr(z.numpy().astype(np.int64) if z.numel() else z.numpy().astype(np.int64), int)}
         if z.dtype != torch.double:
             impl = {"bad-dtype": str(z.dtype)}
@@ -856,14 +1048,22 @@ def run_all(ctx, thorough, scale=1):
     for n in range(1, nmax + 1):
         how = rng.choice(["size", "default", "zero"])
         case = {"kind": "space", "state": kinds[n % 3], "nv": n if how != "size" else rng.choice([n, 1, 3]), "full": True,
-                "size": n if how == "size" else (None if how == "default" else 0), "pass_size": how != "default" or rng.random() < 0.5}
+                "size": n if how == "size" else (None if how == "default" else 0), "pass_size": how != "default" or rng.random() < 0.5,
+                "size_form": rng.choice(SIZE_FORMS), "num_form": rng.choice(NUM_FORMS), "device_form": rng.choice(DEVICE_FORMS)}
         space_case(ctx, case)
+    # every way of passing the size / index / device arguments, on small spaces
+    for sf in SIZE_FORMS:
+        for df in DEVICE_FORMS:
+            n = rng.randrange(1, 7)
+            space_case(ctx, {"kind": "space", "state": rng.choice(kinds), "nv": rng.choice([n, 2]), "full": True, "size": n, "pass_size": True,
+                             "size_form": sf, "num_form": rng.choice(NUM_FORMS), "device_form": df})
     # ---- sampled rows, n = 9/13 .. 20 (20 always: the boundary of the guard)
     big = list(range(nmax + 1, 21))
     for n in big:
         how = rng.choice(["size", "default"]) if n != 20 else ("size" if rng.random() < 0.5 else "default")
         case = {"kind": "space", "state": rng.choice(kinds), "nv": n if how == "default" else 2, "full": False,
-                "size": n if how == "size" else None, "nsamp": 200 if thorough else 60, "ks_seed": rng.randrange(10 ** 9)}
+                "size": n if how == "size" else None, "nsamp": 200 if thorough else 60, "ks_seed": rng.randrange(10 ** 9),
+                "size_form": rng.choice(SIZE_FORMS), "num_form": rng.choice(NUM_FORMS), "device_form": rng.choice(DEVICE_FORMS)}
         space_case(ctx, case)
     if thorough:   # n = 20 through both call forms
         space_case(ctx, {"kind": "space", "state": "dm", "nv": 20, "full": False, "size": 0, "nsamp": 100})
@@ -871,7 +1071,15 @@ def run_all(ctx, thorough, scale=1):
     # ---- guard / default cases (malformed stream)
     for (size, nv) in [(21, 2), (None, 21), (0, 21), (22, 20), (64, 3), (0, 3), (None, 4), (1000, 2), (21, 21)] + \
             [(rng.randrange(21, 40), rng.randrange(1, 6)) for _ in range(3 * scale)]:
-        space_case(ctx, {"kind": "space", "state": rng.choice(kinds), "nv": nv, "size": size, "full": eff_size(size, nv) <= nmax, "nsamp": 20})
+        space_case(ctx, {"kind": "space", "state": rng.choice(kinds), "nv": nv, "size": size, "full": eff_size(size, nv) <= nmax, "nsamp": 20,
+                         "size_form": rng.choice(SIZE_FORMS), "device_form": rng.choice(DEVICE_FORMS)})
+    # ---- (a') results handed out earlier are modified in place between calls
+    for how in MUTATIONS * (3 if thorough else 1):
+        c = gen_alias_case(rng, thorough)
+        c["how"] = how
+        alias_case(ctx, c)
+    for _ in range((40 if thorough else 6) * scale):
+        alias_case(ctx, gen_alias_case(rng, thorough))
     # ---- (b) subspace_vector
     for _ in range((200 if thorough else 20) * scale):
         size = rng.choice([None, 0, rng.randrange(1, 21), rng.randrange(1, 41), rng.randrange(21, 61)])
@@ -879,7 +1087,8 @@ def run_all(ctx, thorough, scale=1):
         s = eff_size(size, nv)
         nums = [rng.randrange(2 ** s) for _ in range(4)] + [0, 2 ** s - 1, rng.randrange(2 ** s, 2 ** min(s + 3, 62) + 1), 2 ** s,
                                                              rng.randrange(2 ** 62)]
-        subspace_case(ctx, {"kind": "sub", "state": rng.choice(kinds), "nv": nv, "size": size, "nums": nums})
+        subspace_case(ctx, {"kind": "sub", "state": rng.choice(kinds), "nv": nv, "size": size, "nums": nums,
+                            "size_form": rng.choice(SIZE_FORMS), "num_form": rng.choice(NUM_FORMS), "device_form": rng.choice(DEVICE_FORMS)})
     # ---- (c) index
     for _ in range((300 if thorough else 25) * scale):
         n = rng.choice([1, 2, 3, 4, 5, 6, 8, 10, 12, 16, 20, 24, 30])
@@ -936,6 +1145,8 @@ def replay(ctx, case):
         k = case.get("kind")
         if k == "space":
             space_case(ctx, case)
+        elif k == "alias":
+            alias_case(ctx, {kk: v for kk, v in case.items() if kk != "step"})
         elif k == "sub":
             subspace_case(ctx, case)
         elif k == "index":
